@@ -62,4 +62,31 @@ theorem truncated_field_is_error (m : WMsg) (p : Nat × WVal) (h : WF m) (hp : F
 example : unmarshal (encode [(1, .varint (-1)), (5, .bytes [1, 2, 3]), (1, .varint 2049), (77, .bytes [])])
     = some [(1, .varint (-1)), (5, .bytes [1, 2, 3]), (1, .varint 2049), (77, .bytes [])] := by decide +kernel
 
+/-- The message-level models (C01, C03, C07, C10, C12, C17) build their messages with `Patch.mk*` (every field
+    listed once, zero values included); on the wire the zero values are omitted (`canon`). Reading the wire form
+    gives the same typed views: for every record that lists each field number at most once. -/
+theorem views_canon (m : WMsg) (hnd : (m.map Prod.fst).Nodup) (f : Nat) :
+    getVarint (canon m) f = getVarint m f ∧ getBytes (canon m) f = getBytes m f := by
+  exact ⟨getVarint_canon m hnd f, getBytes_canon m hnd f⟩
+
+theorem wire_view_syncOp (m : WMsg) (h : WF m) (hnd : (m.map Prod.fst).Nodup) :
+    (unmarshal (encode (canon m))).map asSyncOp = some (asSyncOp m) := by
+  rw [proto_roundtrip _ (WF_canon m h), Option.map_some]
+  simp only [asSyncOp, getVarint_canon m hnd, getBytes_canon m hnd]
+
+theorem wire_view_syncHeader (m : WMsg) (h : WF m) (hnd : (m.map Prod.fst).Nodup) :
+    (unmarshal (encode (canon m))).map asSyncHeader = some (asSyncHeader m) := by
+  rw [proto_roundtrip _ (WF_canon m h), Option.map_some]
+  simp only [asSyncHeader, getVarint_canon m hnd]
+
+theorem wire_view_control (m : WMsg) (h : WF m) (hnd : (m.map Prod.fst).Nodup) :
+    (unmarshal (encode (canon m))).map asControl = some (asControl m) := by
+  rw [proto_roundtrip _ (WF_canon m h), Option.map_some]
+  simp only [asControl, getVarint_canon m hnd, getBytes_canon m hnd]
+
+theorem wire_view_bsdiffHeader (m : WMsg) (h : WF m) (hnd : (m.map Prod.fst).Nodup) :
+    (unmarshal (encode (canon m))).map asBsdiffHeader = some (asBsdiffHeader m) := by
+  rw [proto_roundtrip _ (WF_canon m h), Option.map_some]
+  simp only [asBsdiffHeader, getVarint_canon m hnd]
+
 end Wharf.C13Proto
